@@ -136,6 +136,14 @@ def main(argv, here):
         return 2
     pid = argv[0].upper()
     os.chdir(here)
+    # the code under test starts real child processes (grep, commands): they must never wait on OUR standard input
+    # (a changed tree that turns a pattern into an option makes `grep` read stdin - a verdict, not a hang)
+    try:
+        _dn = os.open(os.devnull, os.O_RDONLY)
+        os.dup2(_dn, 0)
+        os.close(_dn)
+    except OSError:
+        pass
     import logging
     logging.disable(logging.CRITICAL)
     drv = _load_driver(pid)
@@ -174,8 +182,27 @@ def main(argv, here):
         pool = ctx.Pool(nworkers)
         it = pool.imap_unordered(_worker, tasks, chunksize=1)
     unit_walls = []
+    # watchdog: a unit that never returns (a changed tree can make real code wait for ever) must end the run with a
+    # report instead of hanging it; generous, so that a slow machine never trips it
+    hang_s = float(os.environ.get("VERIF_HANG_S", "0") or 0) or max(900.0, 4 * cap)
+
+    def _results():
+        if pool is None:
+            for d in it:
+                yield d
+            return
+        while True:
+            try:
+                yield it.next(timeout=hang_s)
+            except StopIteration:
+                return
+            except mp.TimeoutError:
+                harness_errors.append("no work unit completed within %.0f s: %d of %d units done, the remaining ones did "
+                                      "not terminate (non-termination of the code under test or of the harness)"
+                                      % (hang_s, done, len(units)))
+                return
     try:
-        for d in it:
+        for d in _results():
             harness_errors.extend(d.pop("harness_errors", []))
             unit_walls.append(d.pop("unit_wall"))
             d.pop("unit_index")
